@@ -440,10 +440,12 @@ class ScopeGen(ScopeFn):
             self.seen.append(node)
         return node.node
 
-    def iterator(self, target):
+    def iterator(self, target, mark=0):
         """
         Declare an iteration variable name for this scope; as in Python, the
-        iteration variable(s) cannot be reassigned.
+        iteration variable(s) cannot be reassigned. `mark` is the length
+        `self.seen` had before `target` was compiled: references made
+        earlier (in a preceding iterable) keep their outer meaning.
         """
         self.iterators.update(
             name.id for name in ast.walk(target) if isinstance(name, ast.Name)
@@ -453,4 +455,6 @@ class ScopeGen(ScopeFn):
         self.assignments = [
             node for node in self.assignments if node.name not in self.iterators
         ]
-        self.seen = [node for node in self.seen if node.name not in self.iterators]
+        self.seen = self.seen[:mark] + [
+            node for node in self.seen[mark:] if node.name not in self.iterators
+        ]
